@@ -566,6 +566,44 @@ func (e *Env) call(x *ECall) Val {
 		}
 		_, present := e.x.mapLookup(e.st, mt, m.S, k)
 		return boolVal(present)
+	case "jarr_kind", "jarr_len":
+		// JSON content of a byte slice decoded as an array of the element type of the second argument (a dummy value)
+		argn(2)
+		b := e.eval(x.Args[0])
+		es := c.sortOf(e.eval(x.Args[1]).T)
+		if x.Fn == "jarr_kind" {
+			return intVal(e.x.jsonArrKind(b, es))
+		}
+		return intVal(e.x.jsonArrLen(b, es))
+	case "jarr_at":
+		argn(3)
+		b := e.eval(x.Args[0])
+		d := e.eval(x.Args[2])
+		return scalar(d.T, e.x.jsonArrElem(b, c.sortOf(d.T), e.evalInt(x.Args[1])))
+	case "jobj_kind", "jobj_card":
+		argn(3)
+		b := e.eval(x.Args[0])
+		ks, vs := c.sortOf(e.eval(x.Args[1]).T), e.x.jsonValSort(e.eval(x.Args[2]))
+		if x.Fn == "jobj_kind" {
+			return intVal(e.x.jsonObjKind(b, ks, vs))
+		}
+		return intVal(e.x.jsonObjCard(b, ks, vs))
+	case "jobj_has":
+		argn(3)
+		b := e.eval(x.Args[0])
+		k := e.eval(x.Args[1])
+		return boolVal(e.x.jsonObjHas(b, c.sortOf(k.T), e.x.jsonValSort(e.eval(x.Args[2])), k.S))
+	case "jobj_val":
+		argn(3)
+		b := e.eval(x.Args[0])
+		k := e.eval(x.Args[1])
+		d := e.eval(x.Args[2])
+		return scalar(d.T, e.x.jsonObjVal(b, c.sortOf(k.T), e.x.jsonValSort(d), k.S))
+	case "plus":
+		// a + b wrapped in the function symbol idx (defining axiom idx(a,b) = a+b): keeps the sum intact as a
+		// quantifier trigger where the solvers would otherwise flatten it into the surrounding arithmetic
+		argn(2)
+		return intVal(e.x.eidx(e.evalInt(x.Args[0]), e.evalInt(x.Args[1])))
 	case "fdiv":
 		// floor division (SMT div); equals Go's / for non-negative dividends and >> for shifts
 		argn(2)
